@@ -360,7 +360,48 @@ chk("C24", "model_checking",
     "DESIGN.md section 4, C24")
 
 
+# extensions made after the first registration (appended to the level text)
+EXTRA = {
+    "C02": " A strided sample of the deterministic families of C04 / C05 / C07 (scope skeletons as function bodies, loop nests, "
+           "return in operand positions) is included; ill-formed variants also place the return inside a filter written in a "
+           "function or closure.",
+    "C03": " Every enumerated tree is also written in 13 syntactic positions (match arm as expression / block / after an "
+           "alternation pattern, if and else bodies, array element, call argument, function tail, return value, let initialiser, "
+           "map value, loop-body assignment, closure body) in both renderings, which must behave alike; a strided part is "
+           "validated against RefSem.",
+    "C04": " Every skeleton is generated at top level (bindings are globals) and as the body of a function (bindings are locals "
+           "of an activation, inner functions are closures; x unbound outside / global / parameter); a use reads the name twice.",
+    "C05": " Pattern tables include alternations mixing ranges and literals (a range that is not the last alternative, two "
+           "ranges, a reversed range then a literal); if-chains draw on a falsey and a truthy representative of every kind of "
+           "the documented truthiness table (all chains of length 1-2, sampled beyond).",
+    "C07": " Further families: every block-carrying construct in statement position x every kind of last statement of its block "
+           "(13 x 10, at top level and inside a function). The same executions are replayed in lock step against the machine "
+           "specification spec/VM.tla by spec/VMRun.tla (one TLC state per executed instruction): a stack height that differs "
+           "from what the instruction's meaning gives is reported with the instruction after which it arose.",
+    "C08": " The end-to-end slice includes a matrix of 10 places a filter statement can be written (top level, function, "
+           "uncalled function, block, loop, if, nested function, closure, match arm, filter action) x 23 patterns / actions "
+           "(return, break, continue, reads and writes of enclosing parameters / locals / globals, closures, end filters, "
+           "runtime errors, exit, recursion, packet fields).",
+    "C11": " Law programs cover round(x, n) for every accepted precision (values with at most n binary places are their own "
+           "rounding; non-finite values are left alone) and sorting of neighbouring integers far from zero.",
+    "C13": " String literals spanning lines include ones that end or start with a line break and ones made of line breaks only.",
+    "C14": " Forward-jump distance scenarios (if / while exit [thorough: match arm]) just under and over 65535 bytes run in "
+           "both tiers. The traced executions are also replayed in lock step against spec/VM.tla (spec/VMRun.tla): every "
+           "operand-bearing instruction must have the effect its encoded operand prescribes (ip, opcode, function, digest of "
+           "the top of stack after each instruction).",
+    "C17": " Two-assignment sequences pair a field of one layer with a structure-selecting field re-assigned the value it "
+           "already has (structure unchanged, so every later read stays decided), in both orders.",
+    "C19": " Every 4th history reads the same bytes as a stream on standard input (pcap_stream(stdin)) through the binary.",
+    "C20": " A third of the streams have a snaplen equal to the longest captured length.",
+    "C23": " Rejected lines include ones the compiler rejects after entering nested scopes and making definitions there (block, "
+           "if, loop, named function body, anonymous function); later lines read names from nested scopes.",
+    "C24": " Programs start with 0-4 comment / blank lines (under the shebang line in shebang mode).",
+}
+
+
 def main():
+    for pid, extra in EXTRA.items():
+        CHECKS[pid]["level_claimed"]["text"] += extra
     props = [json.loads(l)["id"] for l in open(os.path.join(VERIF, "properties.jsonl"))]
     na = [{"property_id": p, "reason": NOT_APPLICABLE.get(p, "check not built yet in this round (planned, see DESIGN.md section 8)")}
           for p in props if p not in CHECKS]
@@ -371,7 +412,7 @@ def main():
             "guard": "p2sh_verif",
             "enable": "RUSTFLAGS='--cfg p2sh_verif' (harness: /verif/harness/.cargo/config.toml; binary: lib/core.py build_binary)",
             "baseline_off_cmd": "cd /repo && cargo test --workspace --no-fail-fast --offline",
-            "source_commits": ["dcc789f"],
+            "source_commits": ["dcc789f", "6113cbd"],
             "add_only": True,
         },
         "engines": [
